@@ -684,8 +684,8 @@ pub fn run(ctx: &Ctx) {
     );
     ctx.assume("the KKT tolerance is the configured solver eps (divided by the recovered scale r for nu-SVC) plus a noise floor 1024*eps_F*n*(sum|alpha K|+|rho|+1)");
     ctx.assume("nu-SVC is only generated with feasible nu <= 2*min(n+,n-)/n; fits whose margin r is <= 0 up to rounding (nu below the minimal training error: w = 0 optimum, linfa divides by r) are degenerate and counted as inconclusive");
-    let per = ctx.tier.pick(60, 500);
-    let nmax = ctx.tier.pick(220, 1200);
+    let per = ctx.tier.pick(60, 300);
+    let nmax = ctx.tier.pick(220, 700);
     const NAMES: [&str; 5] = ["c-svc", "nu-svc", "one-class", "eps-svr", "nu-svr"];
     // the families are independent: run them side by side so one slow fit does not serialise the run
     rayon::scope(|sc| {
